@@ -65,6 +65,15 @@ CHECKS = {
             "initial assignment of the cached flag to up to five chosen cells; all query outcomes must equal the all-cached run. "
             "Uncached cells must hold no values, run on every call, accept unhashable arguments and reject assignment.",
             "None-returning formulas and assignments to flag-carrying cells are outside the generated domain; per-case enumeration of assignments is exhaustive, cases are sampled"),
+    "C10": ("exploration",
+            "exhaustive enumeration of the definer x target x mode x deriver x order grid over a fixed space tree, each cell followed by edit / base-change / rename / save-load follow-ups, against the binding rule computed from the statement",
+            "Every combination of definer position (A, A.B, A.B.C), target placement (itself, own cells, descendant space, cells in a "
+            "descendant, ancestor, outside space, outside cells), mode and deriver (static sub via bases= or add_bases, ItemSpace of the "
+            "definer, of an ancestor, nested ItemSpace), with the reference set before or after the deriver exists, is built; the "
+            "binding and mode in the deriving space are compared by identity with the rule of the statement, documented rejections "
+            "must be clean, and the rule must hold again after re-assignment, base removal/re-addition, override removal in a chain, "
+            "removal of a first base, renaming and write/read. The grid is exhaustive for this tree; other trees are not explored.",
+            "static derivation is asserted only for targets 'the definer itself or its cells'; the tree shape is fixed"),
     "C11": ("exploration",
             "stateful property-based testing (Hypothesis): histories mixing valid edits with a catalogue of invalid requests; invariant 'description before == after' on every rejection and well-formedness (acyclic, C3, valid names) after every acceptance",
             "Generated histories interleave valid edits and evaluations with invalid requests covering each rejection reason x each "
